@@ -24,7 +24,7 @@
 EXTENDS Annotations
 
 CONSTANTS
-    AnnChoices,       \* parameter annotations: subset of {"noann","int","str","QA","OptInt","ListInt","T"}
+    AnnChoices,       \* parameter annotations: subset of {"noann","int","str","QA","QTE","TE","OptInt","ListInt","T"}
     DefaultChoices,   \* subset of {"none","int:1","None","..."}
     RetChoices,       \* return annotations (same vocabulary, plus "None")
     AsyncChoices,     \* subset of BOOLEAN
@@ -40,6 +40,8 @@ NoAnn == X("noann", "", << >>)
 AnnExpr(c) ==
     CASE c = "noann" -> NoAnn
       [] c = "QA" -> Quote(Nm("A"))
+      [] c = "QTE" -> Quote(Nm("TimeoutError"))       \* a module-level class that shadows a builtin, as a string
+      [] c = "TE" -> Nm("TimeoutError")
       [] c = "OptInt" -> Sub("Optional", <<Nm("int")>>)
       [] c = "ListInt" -> Sub("list", <<Nm("int")>>)
       [] OTHER -> Nm(c)                     \* int, str, T, None
@@ -104,7 +106,8 @@ ImplSigDef(h) ==
 (* Impl, runtime route                                                     *)
 (***************************************************************************)
 \* the annotation object found on the function: the evaluated expression, or its source text (PEP 563)
-ImplAnnObject(h, ann) == IF h.future THEN X("strobj", "", <<ann>>) ELSE PyEval(ann)
+\* (names inside strings are resolved by get_name_from_globals, see Annotations!ImplSigNames)
+ImplAnnObject(h, ann) == IF h.future THEN X("strobj", "", <<ImplSigNames(ann, TRUE)>>) ELSE PyEval(ImplSigNames(ann, FALSE))
 
 \* arg_spec.py:508 _get_type_for_parameter
 ImplRtParamType(h, p) ==
